@@ -770,6 +770,16 @@ impl<E: Effect> Executor<E> {
         }
     }
 
+    /// The await of `awaiter` has reported the state of `targets` (completed or not). Its select
+    /// evaluates its sources once every awaited process has been reported.
+    pub fn notify_await_report(&mut self, awaiter: ProcessId, targets: &[ProcessId]) {
+        if let Some(process) = self.get_process_mut(awaiter) {
+            process
+                .unreported_awaits
+                .retain(|target| !targets.contains(target));
+        }
+    }
+
     /// Notify a process that was waiting for a result with the result value
     pub fn notify_result(
         &mut self,
@@ -785,6 +795,9 @@ impl<E: Effect> Executor<E> {
             self.wake_selecting(awaiter);
             return Ok(());
         }
+
+        // A result reports the state of its process.
+        self.notify_await_report(awaiter, &[awaited]);
 
         // Inject heap data into the result value
         let injected_result = self.inject_heap_data(result, &heap)?;
@@ -2265,6 +2278,9 @@ impl<E: Effect> Executor<E> {
             for previous in &stale {
                 self.release(previous);
             }
+            if let Some(process) = self.get_process_mut(pid) {
+                process.unreported_awaits = pid_targets.clone();
+            }
 
             self.mark_selecting(pid);
             return Ok(Some(Action::Await {
@@ -2647,10 +2663,22 @@ impl<E: Effect> Executor<E> {
             }
         }
 
-        // Phase 3: Ensure start time is set (lazily after awaits complete)
+        // Phase 3: Wait until the await has reported every process source. A wake-up before that
+        // (a message, or a target on this worker completing) must not evaluate the sources: an
+        // earlier source that completed long ago would lose to a later one only because its
+        // result has not arrived yet.
+        let awaits_unreported = self
+            .get_process(pid)
+            .is_some_and(|process| !process.unreported_awaits.is_empty());
+        if awaits_unreported {
+            self.mark_selecting(pid);
+            return Ok(None);
+        }
+
+        // Phase 4: Ensure start time is set (lazily after awaits complete)
         let start_time = self.ensure_select_start_time(pid, current_time_ms)?;
 
-        // Phase 4: Process sources by type
+        // Phase 5: Process sources by type
         self.process_select_sources(pid, receive_result, start_time, current_time_ms)
     }
 
